@@ -37,7 +37,7 @@ def main():
         dm = sh("PYTHONPATH=%s/src /venv/bin/python %s/demo.py" % (wt, d))
         res["demo_with_change"] = dm.returncode
         if "--tests" in os.environ.get("SEEDRUN", ""):
-            t = sh("cd %s && PYTHONPATH=%s/src /venv/bin/python -m pytest -q -p no:cacheprovider --color=no tests 2>&1 | tail -1" % (wt, wt))
+            t = sh("cd %s && PYTHONPATH=%s/src /venv/bin/python -m pytest -q -p no:cacheprovider --color=no 2>&1 | tail -1" % (wt, wt))
             res["tests"] = t.stdout.strip()[-120:]
         for c in checks:
             t0 = time.time()
